@@ -2,9 +2,9 @@
    All statements are for an arbitrary glob matcher gm.  spec_match is the git-style reference walk
    (ancestor directories of the path, nearest first, global node last); match_path true is the model of
    IgnoreFilter::match_path after the repair, match_path false the string-prefix lookup as pinned.
-   Proofs: Ignore/IgnoreProofs.v *)
+   Proofs: Ignore/IgnoreProofs.v, Ignore/IgnoreEquiv.v (the repaired code's lookup IS the reference walk) *)
 From Coq Require Import List NArith String Ascii Bool.
-From WX Require Import Base.Bytes Glob.Glob Glob.Gitignore Glob.PathLemmas Ignore.IgnoreFilter Ignore.IgnoreProofs.
+From WX Require Import Base.Bytes Glob.Glob Glob.Gitignore Glob.PathLemmas Ignore.IgnoreFilter Ignore.IgnoreProofs Ignore.IgnoreEquiv.
 Import ListNotations.
 Open Scope string_scope.
 Open Scope list_scope.
@@ -70,6 +70,21 @@ Theorem C03_string_prefix_lookup_refuted :
   is_under "/p/test" "/p/tests/x.log" = false.
 Proof. exact string_prefix_lookup_refuted. Qed.
 Print Assumptions C03_string_prefix_lookup_refuted.
+
+(* the repaired lookup (longest byte-prefix key of the trie, non-ancestor keys skipped, then the key's parent)
+   computes exactly the reference walk, for every filter with absolute unique keys and every absolute path *)
+Theorem C03_match_path_is_spec : forall gm f path is_dir,
+  absolute path -> (forall k g, In (k, g) (f_nodes f) -> absolute k) -> NoDup (map fst (f_nodes f)) ->
+  match_path gm true f path is_dir = spec_match gm f path is_dir.
+Proof. exact match_path_is_spec. Qed.
+Print Assumptions C03_match_path_is_spec.
+
+(* ... in particular for everything IgnoreFilter::new builds from ignore files of absolute directories *)
+Theorem C03_filter_new_match_is_spec : forall gm origin files path is_dir,
+  absolute path -> (forall d l, In (Some d, l) files -> absolute d) ->
+  match_path gm true (filter_new origin files) path is_dir = spec_match gm (filter_new origin files) path is_dir.
+Proof. exact filter_new_match_is_spec. Qed.
+Print Assumptions C03_filter_new_match_is_spec.
 
 Example C03_example :
   let f := filter_new "/p" [(None, ["*.tmp"]); (Some "/p", ["*.log"; "target/"]); (Some "/p/test", ["!keep.log"; "/local"])] in
